@@ -44,6 +44,7 @@ def run(ctx: Ctx):
 
     res.rule("HOMOGENEITY", "dimensional analysis: every value returned by cp_to_tensor / cp_to_unfolded / cp_to_vec / cp_norm, tucker_to_tensor / _unfolded / _vec, tt_to_tensor / tt_to_vec, tr_to_tensor and parafac2_to_slice has the homogeneity degree of the defining contraction (degree 1 in the weights or core, degree 1 in every factor; mask degree 1 when given), for weights present and absent, on every return path", floor=20)
     ctx.guarded(run_homogeneity, ctx, "HOMOGENEITY", ("tensorly.cp_tensor", "tensorly.tucker_tensor", "tensorly.tt_tensor", "tensorly.tr_tensor", "tensorly.parafac2_tensor"))
+    res.rule("REJECT-TWO-SIDED", "every rejecting test of a validator (an `if` whose body raises) is either an (in)equality / count test, or compares a quantity that is non-negative by construction (abs / norm / even power, possibly reduced by max / sum) with its tolerance: a signed deviation compared one-sidedly accepts every factor set that deviates in the other direction", floor=20)
     for modname, (cls, validator, dense, prefix) in FAMILIES.items():
         mod = repo.module(modname)
         ci = repo.cls(f"{modname}.{cls}")
@@ -51,6 +52,7 @@ def run(ctx: Ctx):
         df = _dense(repo, modname, dense)
         ctx.guarded(ctor_validates, ctx, ci, vf)
         ctx.guarded(views, ctx, mod, ci, df, prefix)
+        ctx.guarded(reject_two_sided, ctx, vf)
 
 
 def _dense(repo, modname, dense):
@@ -121,6 +123,76 @@ def ctor_validates(ctx, ci, vf):
         raise AnalysisError(f"{init.qname}: no state store found")
     for v in ex.violations.values():
         ctx.finding("CTOR-VALIDATES", init, v.node.ast, v.message, construct=v.key[1], path=v.path)
+
+
+NN_CALLS = {"abs", "norm", "square", "absolute"}
+SIGN_KEEPING = {"max", "min", "sum", "mean", "amax", "amin", "sqrt", "reshape", "transpose", "to_numpy", "float", "tensor", "real"}
+TWO_SIDED_CALLS = {"allclose", "isclose", "array_equal"}
+
+
+def _non_negative(e, defs, depth=0) -> bool:
+    """is the value of `e` non-negative by construction (syntactic, sound: False when unsure)"""
+    if depth > 6:
+        return False
+    if isinstance(e, ast.Name):
+        d = defs.get(e.id)
+        return len(d) == 1 and _non_negative(d[0], defs, depth + 1) if d else False
+    if isinstance(e, ast.Constant):
+        return isinstance(e.value, (int, float)) and not isinstance(e.value, bool) and e.value >= 0
+    if isinstance(e, ast.Call):
+        nm = call_name(e)
+        if nm in NN_CALLS:
+            return True
+        if nm in SIGN_KEEPING and e.args:
+            return _non_negative(e.args[0], defs, depth + 1)
+        return False
+    if isinstance(e, ast.BinOp):
+        if isinstance(e.op, ast.Pow) and isinstance(e.right, ast.Constant) and isinstance(e.right.value, int) and e.right.value % 2 == 0:
+            return True
+        if isinstance(e.op, (ast.Mult, ast.Add, ast.Div)):
+            return _non_negative(e.left, defs, depth + 1) and _non_negative(e.right, defs, depth + 1)
+        return False
+    return False
+
+
+def reject_two_sided(ctx, vf):
+    res = ctx.res
+    defs = {}
+    for s in own_scope_nodes(vf.node):
+        if isinstance(s, ast.Assign) and len(s.targets) == 1 and isinstance(s.targets[0], ast.Name):
+            defs.setdefault(s.targets[0].id, []).append(s.value)
+        elif isinstance(s, (ast.AugAssign, ast.For, ast.comprehension)):
+            t = s.target
+            for n in ast.walk(t):
+                if isinstance(n, ast.Name):
+                    defs.setdefault(n.id, []).extend([None, None])  # not a single definition
+    n = 0
+    for s in own_scope_nodes(vf.node):
+        if not (isinstance(s, ast.If) and any(isinstance(b, ast.Raise) for b in s.body)):
+            continue
+        for c in ast.walk(s.test):
+            if not isinstance(c, ast.Compare) or len(c.ops) != 1:
+                continue
+            n += 1
+            op, l, r = c.ops[0], c.left, c.comparators[0]
+            verdict = "equality"
+            if isinstance(op, (ast.Lt, ast.LtE, ast.Gt, ast.GtE)):
+                tol, qty = None, None
+                if isinstance(r, ast.Constant) and isinstance(r.value, float):
+                    tol, qty = r, l
+                elif isinstance(l, ast.Constant) and isinstance(l.value, float):
+                    tol, qty = l, r
+                if tol is None:
+                    verdict = "count / ordering test without a tolerance"
+                elif _non_negative(qty, defs):
+                    verdict = "tolerance on a non-negative quantity"
+                else:
+                    verdict = "ONE-SIDED"
+            res.instance("REJECT-TWO-SIDED", f"{vf.qname}: {src(c)[:70]}", sample={"line": c.lineno, "verdict": verdict})
+            if verdict == "ONE-SIDED":
+                ctx.finding("REJECT-TWO-SIDED", vf, c, f"the rejecting test `{src(c)[:100]}` compares a SIGNED quantity with a tolerance: deviations in the other direction (e.g. P.T @ P - I negative: shrunk, zero or anti-correlated columns) are accepted and the factor set is silently reconstructed. Take abs / a norm of the deviation first", construct=f"{vf.name}: one-sided tolerance test {src(c)[:80]}")
+    if n == 0:
+        raise AnalysisError(f"REJECT-TWO-SIDED: {vf.qname} has no rejecting test at all")
 
 
 # ---------------------------------------------------------------------------------
